@@ -97,6 +97,47 @@ structure Req where
   reqData : List (Nat × Nat)
 deriving DecidableEq
 
+/-! ### actix-http's own pool of request heads (`actix-http/src/message.rs`, `requests/head.rs`)
+
+`Request::new()` takes its `Message<RequestHead>` from a thread-local `MessagePool`; a popped head
+goes through `RequestHead::clear`, then whoever builds the request overwrites *some* fields
+(h1 decoder + dispatcher: all; `actix_http::test::TestRequest::finish`: all but `peer_addr`;
+a bare `Request::new()`: none). -/
+
+/-- `RequestHead::default()` -/
+def Head.default : Head := ⟨"GET", "/", "11", none, []⟩
+
+/-- `RequestHead::clear` as of the `fix:` commit (all request-describing fields) -/
+def headClear (h : Head) : Head :=
+  let h := { h with headers := [] }                      -- self.headers.clear()  (+ flags)
+  let h := { h with method := "GET" }                    -- self.method = Method::default()
+  let h := { h with uri := "/" }                         -- self.uri = Uri::default()
+  let h := { h with version := "11" }                    -- self.version = Version::HTTP_11
+  { h with peer := none }                                -- self.peer_addr = None
+
+/-- `RequestHead::clear` before the fix: only flags and headers -/
+def headClearOld (h : Head) : Head := { h with headers := [] }
+
+/-- `MessagePool::get_message` with a given `clear` -/
+def headGet (clear : Head → Head) : List Head → Head × List Head
+  | [] => (Head.default, [])
+  | h :: rest => (clear h, rest)
+
+/-- what a request builder writes into the head it got; `none` = field left as found -/
+structure HeadSpec where
+  method : Option String
+  uri : Option String
+  version : Option String
+  peer : Option (Option Nat)
+  headers : List (String × String)
+
+def buildHead (h : Head) (s : HeadSpec) : Head :=
+  { method := s.method.getD h.method
+    uri := s.uri.getD h.uri
+    version := s.version.getD h.version
+    peer := s.peer.getD h.peer
+    headers := h.headers ++ s.headers }
+
 /-- `actix_router::Path<Url>` -/
 structure PathSt where
   /-- `Url.uri` -/
@@ -125,11 +166,33 @@ deriving DecidableEq
 /-- `http::Uri::path()` for origin-form targets -/
 def uriPath (uri : String) : List Char := uri.toList.takeWhile (· ≠ '?')
 
-/-- `Path::new(Url::new(uri))` -/
-def PathSt.new (uri : String) : PathSt := ⟨uri, uriPath uri, 0, []⟩
+/-- `Quoter::requote` of `Quoter::new(b"", b"%/+")` (actix-router/src/quoter.rs:35-66): every valid
+`%XX` is decoded unless it decodes to one of the protected `%`, `/`, `+`; scanning resumes after a
+decoded triple, and one byte later otherwise.  (ASCII results only; fuel = input length.) -/
+def requoteAux : Nat → List Char → List Char
+  | 0, l => l
+  | _ + 1, [] => []
+  | n + 1, c :: rest =>
+    if c == '%' then
+      match rest with
+      | a :: b :: rest' =>
+        match hexVal a, hexVal b with
+        | some x, some y =>
+          let ch := Char.ofNat (x * 16 + y)
+          if ch == '%' || ch == '/' || ch == '+' then c :: requoteAux n rest
+          else ch :: requoteAux n rest'
+        | _, _ => c :: requoteAux n rest
+      | _ => c :: requoteAux n rest
+    else c :: requoteAux n rest
 
-/-- `Url::update(&uri)` -/
-def PathSt.update (p : PathSt) (uri : String) : PathSt := { p with uri := uri, path := uriPath uri }
+/-- `Url::path()`: the re-quoted path if re-quoting changed anything, else `uri.path()` -/
+def urlPath (uri : String) : List Char := requoteAux (uriPath uri).length (uriPath uri)
+
+/-- `Path::new(Url::new(uri))` -/
+def PathSt.new (uri : String) : PathSt := ⟨uri, urlPath uri, 0, []⟩
+
+/-- `Url::update(&uri)`: `self.uri = uri.clone(); self.path = requote(uri.path())` -/
+def PathSt.update (p : PathSt) (uri : String) : PathSt := { p with uri := uri, path := urlPath uri }
 
 /-- `Path::reset()` -/
 def PathSt.reset (p : PathSt) : PathSt := { p with skip := 0, segments := [] }
@@ -337,7 +400,7 @@ def showOptS : Option String → String
   | some s => s
 
 /-- header names the dump looks up -/
-def probeHeaders : List String := ["x-a", "x-b", "x-g"]
+def probeHeaders : List String := ["x-a", "x-b", "x-g", "host"]
 /-- type tags of the probe types (extensions `E1..E3`, app data `A,B,C`) -/
 def probeTags : List Nat := [1, 2, 3]
 
@@ -353,6 +416,9 @@ def dump (cfg : Cfg) (i : Inner) : String :=
   ";X=" ++ joinWith "," (probeTags.map fun t => showOpt (extGet i.extensions t)) ++
   ";c=" ++ showOpt i.connData ++
   ";D=" ++ joinWith "," (probeTags.map fun t => showOpt (appDataGet cfg i t)) ++
+  -- `connection_info().host()` (cached in the request extensions on first use): `Host` header,
+  -- else `AppConfig::default().host()`
+  ";ci=" ++ (match headerGet i.head.headers "host" with | some h => h | none => "localhost:8080") ++
   ";n=" ++ showOptS (matchName cfg i) ++
   ";t=" ++ showOptS (matchPattern cfg i)
 
@@ -543,6 +609,10 @@ def aliveExt (w : World) : Nat := (w.heap.map fun e => e.2.extensions.length).su
 def aliveConn (w : World) : Nat :=
   let held := w.heap.filterMap fun e => e.2.connData
   (w.conns ++ held).eraseDups.length
+
+/-- is the application-level data container still referenced (by the service or by an allocation,
+each of which holds an `Rc` of it in `app_data[0]` and, through `app_state`, of the pool)? -/
+def aliveApp (w : World) : Nat := if w.svcAlive || !w.heap.isEmpty then 1 else 0
 
 /-! ## The fixed application the harness builds (harness/src/props/c11.rs `build_app`) -/
 
